@@ -185,6 +185,8 @@ class Evaluator:
             cand = self.repo.functions[f[1]]
             if cand.cls is None and cand is not self.fn:
                 fi, formal = cand, list(cand.params)
+            elif cand.cls is not None and cand.kind == 'static' and cand is not self.fn:
+                fi, formal = cand, list(cand.params)        # Class.static_helper(...)
         elif f[0] == 'attr' and self.fn.cls is not None and self.fn.params and \
                 f[1] == self.bind.get(self.fn.params[0], ('param', self.fn.params[0])) and \
                 self.fn.kind != 'static':
